@@ -174,6 +174,18 @@ impl<'a> std::fmt::Display for TwoPhase<'a> {
 	}
 }
 
+fn permute(idx: &mut Vec<usize>, k: usize, out: &mut Vec<Vec<usize>>) {
+	if k == idx.len() {
+		out.push(idx.clone());
+		return;
+	}
+	for i in k..idx.len() {
+		idx.swap(k, i);
+		permute(idx, k + 1, out);
+		idx.swap(k, i);
+	}
+}
+
 /// the compact preset AS DOCUMENTED (no indentation, no spacing, no limits) - not whatever `Options::compact()` returns
 pub fn is_documented_compact(o: &Options) -> bool {
 	matches!(o.indent, Indent::Spaces(0))
@@ -340,7 +352,20 @@ pub fn replay_print(rep: &mut Report, rec: &J) {
 		if items.len() <= 4 {
 			match guarded(|| {
 				let (t, order) = ctxprint::print_set(items, o.clone());
-				let reference = if order.as_slice() == items.as_slice() { exp.clone() } else { Value::Array(order).print_with(o.clone()).to_string() };
+				let mut reference = if order.as_slice() == items.as_slice() { exp.clone() } else { Value::Array(order.clone()).print_with(o.clone()).to_string() };
+				if t != reference {
+					// any order of the set's items is a legitimate order for a set (an implementation may sort them)
+					let mut idx: Vec<usize> = (0..order.len()).collect();
+					let mut perms = vec![];
+					permute(&mut idx, 0, &mut perms);
+					for p in perms {
+						let r = Value::Array(p.iter().map(|i| order[*i].clone()).collect()).print_with(o.clone()).to_string();
+						if r == t {
+							reference = r;
+							break;
+						}
+					}
+				}
 				(t, reference)
 			}) {
 				Ok((t, reference)) if t == reference => (),
